@@ -159,6 +159,9 @@ fn main() {
     let maxn = argn(&args, "--maxn", 5) as usize;
     let inst_file = arg(&args, "--inst-file");
     let force = arg(&args, "--cfg").map(|s| serde_json::from_str::<Value>(&s).unwrap());
+    // --sweep k: k further instances per listed instance are solved WITHOUT being logged; a run whose outcome disagrees with the harness' own
+    // optimum is run again, logged (the runs are deterministic), next to its reference run, and judged by TLC like any other run
+    let sweep = argn(&args, "--sweep", 0) as usize;
     if args.iter().any(|a| a == "--cache-fault") {
         CACHE_FAULT.store(true, SeqCst);
     }
@@ -176,7 +179,46 @@ fn main() {
     };
     let mut out = Out { w: &mut w, run: 0 };
     let mut series = 0i64;
+    let mut swept = 0usize;
+    let mut suspects = 0usize;
     for (inst_id, m) in models.iter().enumerate() {
+        if matches!(mode.as_str(), "base" | "cache" | "longarc") {
+            for j in 0..sweep {
+                let m2 = gen_model(&fam, seed.wrapping_mul(104729).wrapping_add((inst_id * sweep + j) as u64), maxn, true);
+                let cfg = RunCfg {
+                    dd: if mode == "longarc" { "pooled" } else { ["lel", "fc", "pooled", "fc", "pooled"][r.gen_range(0..5)] },
+                    cache: match mode.as_str() { "base" => false, "cache" => true, _ => r.gen_bool(0.5) },
+                    dom: false,
+                    fringe: ["simple", "nodup"][r.gen_range(0..2)],
+                    width: [1, 1, 2, 2, 3][r.gen_range(0..5)],
+                    cut_at: 0,
+                    primal: vec![],
+                    level: "full",
+                };
+                let (_, ret) = run_seq(&m2, &cfg);
+                swept += 1;
+                let val = if ret["has_value"].as_bool().unwrap() { Some(ret["best_value"].as_i64().unwrap()) } else { None };
+                let bad = ret["panicked"].as_bool().unwrap() || ret["watchdog"].as_bool().unwrap() || !ret["is_exact"].as_bool().unwrap() || val != m2.opt().map(|o| o as i64);
+                if bad {
+                    suspects += 1;
+                    let id2 = 1_000_000 + inst_id * sweep + j;
+                    match mode.as_str() {
+                        "base" => {
+                            let (e, ret) = run_seq(&m2, &cfg);
+                            out.put(&m2, id2, &cfg, "base", -1, false, e, ret);
+                        }
+                        _ => {
+                            // the reference run: same configuration without cache (C09) / with a plain diagram (C15)
+                            let refcfg = if mode == "cache" { RunCfg { cache: false, ..cfg.clone() } } else { RunCfg { dd: "fc", cache: false, ..cfg.clone() } };
+                            let (e, ret) = run_seq(&m2, &refcfg);
+                            out.put(&m2, id2, &refcfg, "base", -1, false, e, ret);
+                            let (e, ret) = run_seq(&m2, &cfg);
+                            out.put(&m2, id2, &cfg, "variant", -1, false, e, ret);
+                        }
+                    }
+                }
+            }
+        }
         let mut base = RunCfg {
             dd: ["lel", "fc", "pooled"][r.gen_range(0..3)],
             cache: false,
@@ -284,4 +326,7 @@ fn main() {
         }
     }
     w.flush().unwrap();
+    if sweep > 0 {
+        eprintln!("SWEEP runs={} suspects={}", swept, suspects);
+    }
 }
